@@ -90,7 +90,7 @@ CHECKS = {
             "Trusts the reference arithmetic in harness/refs.hpp (unsigned __int128); 64-bit inputs are sampled, not enumerated.",
             "DESIGN.md section 4 C18"),
     "C19": ("exploration", SAN + "callback trace recorder with set oracle",
-            "Every extent vector with entries 0..B for 1..5 dimensions and five tuple types, plus random larger boxes and boxes too large to finish; the recorded tuple multiset is compared with the box; the callback is handed over in eight forms (closures owning state, std::function, functors).",
+            "Every extent vector with entries 0..B for 1..5 dimensions and five tuple types, plus random larger boxes and boxes too large to finish; the recorded tuple multiset is compared with the box; the callback is handed over in twelve forms (closures owning state, std::function, functors, callbacks that return a value).",
             "Order of visits is not asserted (the property states none).", "DESIGN.md section 4 C19"),
     "C20": ("exploration", "generated tables of the metaprogram's outputs checked at run time against std::sort / std::is_permutation",
             "All sequences up to length 4 (6 thorough) over 5 symbols for sorting and all pairs up to length 3 (4) over 4 symbols for the predicate, plus random long "
